@@ -42,6 +42,7 @@ print(json.dumps({
     "rules": rules, "keywords": sorted(T._keywords), "ops": ops, "flags": int(T._RE.flags),
     "liquid_default": lt(Environment()),
     "liquid_marker": lt(Environment(template_comments=True, comment_start_string="{MARK", comment_end_string="KRAM}")),
+    "liquid_marker_punct": lt(Environment(template_comments=True, comment_start_string="{MARK@", comment_end_string="@KRAM}")),
 }))
 """
 
@@ -108,6 +109,7 @@ def emit(repo: Path) -> dict:
     L.append("def opTable : List (String × String) := [" + ", ".join(f"({lean_str(v)}, {lean_str(k)})" for v, k in t["ops"]) + "]\n")
     L.append(f"def liquidRulesDefault : String := {lean_str(t['liquid_default'])}\n")
     L.append(f"def liquidRulesMarker : String := {lean_str(t['liquid_marker'])}\n")
+    L.append(f"def liquidRulesMarkerPunct : String := {lean_str(t['liquid_marker_punct'])}\n")
     L.append(f"def liquidMarkerExpr : String := {lean_str(marker_expr(repo))}\n")
     L.append("def liquidTokenizeArgs : List String := [" + ", ".join(lean_str(a) for a in tokenize_call_args(repo)) + "]\n")
     L.append("end LiquidVerif.Gen.C20")
